@@ -14,7 +14,7 @@ FAULTS = ["non_utf8", "directory", "dangling_link", "unserialisable", "empty"]
 
 def make_tree(rng):
     files = {}
-    names = ["a.css", "b.css", "sub/c.css", "sub/deep/d.css", "z/e.css", "sub/f.style.css", ".hidden/g.css"]
+    names = ["a.css", "b.css", "sub/c.css", "sub/deep/d.css", "z/e.css", "sub/f.style.css", ".hidden/g.css", "lib.min.css", "v1.2.bundle.css"]
     rng.shuffle(names)
     good = names[: rng.randrange(2, 5)]
     shared_var = rng.random() < 0.5
@@ -22,7 +22,10 @@ def make_tree(rng):
         css = gen_css.stylesheet(rng)
         if shared_var:
             # custom properties defined in one file and used in another must not leak
-            css = (":root { --shared: #777 }\n" if i == 0 else ".uses-shared { color: var(--shared); background-color: #fff }\n") + css
+            css = (":root { --shared: #777; --sharedbg: #8a8a8a }\n" if i == 0 else
+                   ".uses-shared { color: var(--shared); background-color: #fff }\n"
+                   ".uses-shared-bg { color: #777777; background-color: var(--sharedbg) }\n"
+                   ".uses-shared-fb { color: var(--shared, #767676); background-color: #fff }\n") + css
         files[nme] = css.encode("utf-8")
     faults = {}
     for kind in rng.sample(FAULTS, rng.randrange(0, 4)):
